@@ -74,6 +74,30 @@ def clone_with_failing_reload():
             st("compare_clone", r=1, src=0, name="base", vol=0, if_rw=True)]
 
 
+def clone_with_failing_copy():
+    """the transfer of the snapshot data files fails (their receivers cannot start): the clone must not be served,
+    or be exact"""
+    return [st("replica", r=0, vol=1), st("wait_rw", vol=1, n=1, timeout=60),
+            st("write", vol=1, count=40), st("snapshot", vol=1, name="a"), st("write", vol=1, count=25),
+            st("snapshot", vol=1, name="base"), st("write", vol=1, count=10),
+            st("block_ports"),
+            st("clone_replica", r=1, vol=0, src=1, name="base"),
+            st("poll_clone", r=1, vol=0, timeout=40), st("modes", vol=0),
+            st("compare_clone", r=1, src=0, name="base", vol=0, if_rw=True), st("unblock_ports")]
+
+
+def clone_process_dies_during_copy():
+    """the clone replica process dies while its status is inProgress (the source is stalled, so the copy cannot have
+    finished) and is started again: it must clone again, not declare itself completed"""
+    return [st("replica", r=0, vol=1), st("wait_rw", vol=1, n=1, timeout=60),
+            st("write", vol=1, count=40), st("snapshot", vol=1, name="base"), st("write", vol=1, count=25),
+            st("stop", r=0),
+            st("clone_replica", r=1, vol=0, src=1, name="base"),
+            st("sleep", ms=6000), st("crash", r=1), st("sleep", ms=1500), st("cont", r=0),
+            st("poll_clone", r=1, vol=0, timeout=90), st("modes", vol=0),
+            st("compare_clone", r=1, src=0, name="base", vol=0, if_rw=True)]
+
+
 def clone_scenario(interrupt=False):
     """source volume (controller 1) with history and snapshot S; a clone replica of a new volume (controller 0)"""
     s = [st("replica", r=0, vol=1), st("wait_rw", vol=1, n=1, timeout=60),
